@@ -63,7 +63,7 @@ func slotKind(t gen.Tok) string {
 
 var c07Strings = []string{"x'; DROP DATABASE y; --", `a"b`, "", "select", "$other", "line\nbreak", "nul\x00byte", "/* c */", `back\slash`, "é日本", "cr\rlf", "' OR '1'='1", "; SHOW USERS"}
 var c07Idents = []string{"select", "from", "a.b", `q"t`, "with space", "time", "é", "1st", "$p", "x'y", "a b; DROP DATABASE z", "nl\nx", "Where"}
-var c07Regex = []string{"a/b", "^x$", "(?i)z", "", `\d+`, "^/var/log/.*$"}
+var c07Regex = []string{"a/b", "^x$", "(?i)z", "", `\d+`, "^/var/log/.*$", `a\/b`, `C:\\/tmp`, `\/\/`, `x\\`}
 
 func finite(f float64) bool { return !math.IsNaN(f) && !math.IsInf(f, 0) }
 
@@ -352,8 +352,11 @@ func c07One(c *Ctx, idx int, local map[string]int64) {
 	case 1:
 		bad[victim.name] = c07Unbindable[rg.Intn(len(c07Unbindable))]
 	default:
-		// empty placeholder
+		// empty placeholder (a parameter named "" must not make it valid)
 		tmpl2 = renderSlots(toks, slots, false, victim.tok)
+		if rg.Bool() {
+			bad[""] = victim.value
+		}
 	}
 	st2, err2, pan2, pv2, stk2 := parseWithParams(tmpl2, bad)
 	r.Eval(1)
